@@ -61,7 +61,9 @@ Definition loops : list (string * string * Z) :=
    ("interp.initNativeFuncs", "for j := 0; j < len(in); j++", 0%Z);
    ("interp.nextLine", "for", 0%Z);
    ("interp.parseFmtTypes", "for i := 0; i < len(s); i++", 0%Z);
-   ("interp.parseFmtTypes", "for i < len(s) && strings.IndexByte("" .-+*#0123456789"", s[i]) >= 0", 0%Z);
+   ("interp.parseFmtTypes", "for i < len(s) && strings.IndexByte("" -+#0"", s[i]) >= 0", 0%Z);
+   ("interp.parseFmtTypes", "for i < len(s) && isDigit(s[i])", 0%Z);
+   ("interp.parseFmtTypes", "for i < len(s) && isDigit(s[i])", 0%Z);
    ("interp.printArgs", "for _, arg := range args", 0%Z);
    ("interp.printArgs", "for i, arg := range args", 0%Z);
    ("interp.pushNulls", "for p.sp+num-1 >= len(p.stack)", 0%Z);
